@@ -532,6 +532,21 @@ def replay_order(d):
     return True, "kept set is the same in every order"
 
 
+def replay_priority(d):
+    ia = native.repo_import("src/isoform_assignment.py")
+    mr = native.repo_import("src/multimap_resolver.py")
+    U = _universe(ia)
+    T = ia.ReadAssignmentType
+    recs = [_mk(ia, *U[k]) for k in d["inputs"]["records"]]
+    _, resolved = _resolve(ia, mr, recs)
+    rank = lambda t: 0 if t in (T.unique, T.unique_minor_difference, T.ambiguous) else 1 if t in (T.inconsistent, T.inconsistent_non_intronic, T.inconsistent_ambiguous) else 2
+    best = min(rank(r.assignment_type) for r in recs)
+    kept = [o for o, r in zip(recs, resolved) if r.assignment_type != T.suspended]
+    prim_unique = [o for o in recs if not o.multimapper and o.assignment_type == T.unique]
+    ok = all(rank(o.assignment_type) == best for o in kept) and (len(prim_unique) != 1 or all(_kept_key(o) == _kept_key(prim_unique[0]) for o in kept))
+    return ok, "records %s (types %s): kept %s" % (d["inputs"]["records"], [o.assignment_type.name for o in recs], [_kept_key(o) for o in kept])
+
+
 def _known_order_tie(ia, recs):
     """the recorded finding: all records uninformative, and two of them tie on overlap and gene-region start"""
     T = ia.ReadAssignmentType
@@ -546,7 +561,8 @@ def _known_order_tie(ia, recs):
 
 @bounded("C08.order_independence", ["C08"], shards=4, note="MultimapResolver.resolve (take_best) on every multiset of <= 3 (thorough: 4) records "
          "drawn from a 33-record universe (5 assignment types x primary/secondary x 3 loci x penalties), in every order: the set of "
-         "kept records (modulo ==) must not depend on the order")
+         "kept records (modulo ==) must not depend on the order; every kept record belongs to the best class present "
+         "(consistent > inconsistent > uninformative) and a single uniquely assigned primary record is the only one kept")
 def c08_order(tier, rng):
     import itertools
     ia = native.repo_import("src/isoform_assignment.py")
@@ -562,8 +578,25 @@ def c08_order(tier, rng):
             if tier == "quick" and n == 3 and rng.random() > 0.35:
                 continue
             recs = [_mk(ia, *U[k]) for k in combo]
-            base, _ = _resolve(ia, mr, recs)
+            base, resolved = _resolve(ia, mr, recs)
             cases += 1
+            # the priority sentence itself: every kept record belongs to the best class present among the read's records (consistent beats
+            # inconsistent beats uninformative), and a single uniquely assigned primary record is the only one kept
+            T = ia.ReadAssignmentType
+            rank = lambda t: 0 if t in (T.unique, T.unique_minor_difference, T.ambiguous) else 1 if t in (T.inconsistent, T.inconsistent_non_intronic, T.inconsistent_ambiguous) else 2
+            best = min(rank(r.assignment_type) for r in recs)
+            kept = [(o, r) for o, r in zip(recs, resolved) if r.assignment_type != T.suspended]
+            worse = [o for o, r in kept if rank(o.assignment_type) > best]
+            prim_unique = [o for o in recs if not o.multimapper and o.assignment_type == T.unique]
+            if not viol and worse:
+                viol.append({"obligation": "C08.order_independence.priority", "inputs": {"records": list(combo)},
+                             "observed": "kept %s although a record of a better class is present (types %s)" % ([_kept_key(o) for o in worse], [o.assignment_type.name for o in recs]),
+                             "required": "consistent beats inconsistent beats uninformative", "replay_call": "contracts.c_multimap:replay_priority"})
+            if not viol and len(prim_unique) == 1 and [_kept_key(o) for o, _r in kept] != [_kept_key(prim_unique[0])] and \
+                    not all(_kept_key(o) == _kept_key(prim_unique[0]) for o, _r in kept):
+                viol.append({"obligation": "C08.order_independence.primary_unique", "inputs": {"records": list(combo)},
+                             "observed": "kept %s, the uniquely assigned primary record is %s" % ([_kept_key(o) for o, _r in kept], _kept_key(prim_unique[0])),
+                             "required": "a uniquely and consistently assigned primary alignment wins over all others", "replay_call": "contracts.c_multimap:replay_priority"})
             for perm in itertools.permutations(range(n)):
                 got, _ = _resolve(ia, mr, [recs[k] for k in perm])
                 if got != base:
